@@ -2,6 +2,45 @@ from checks.mux_common import mc, drive, validate, __doc__  # noqa
 import vlib
 
 
+def notify_slot(ctx, q):
+    """Pushed notifications go only to the notification subscriber: the WebSocket client's one-live-subscriber slot
+    (spec/NotifySub.tla) under concurrent subscribe / unsubscribe / receiver drops while a raw peer pushes notifies."""
+    import json
+    ctx.tlc_mc("NotifySub", "MC_NotifySub.cfg", workers=4, must_cover=["SubscribeOk", "Unsubscribe", "DropReceiver", "ReaderSnap", "ReaderSend"])
+    ctx.tlc_mc("NotifySub", "MC_NotifySub_clearany.cfg", workers=4, expect_violation="LiveSubscriberKept")
+    tr, sm = ctx.work / "nsub.ndjson", ctx.work / "nsub.json"
+    ctx.vh("nsub", "--seed", ctx.seed, "--scenarios", 40 if q else 400, "--notes", 40, "--ops", 14, "--out", tr, "--summary", sm, timeout=1500)
+    st = json.loads(sm.read_text())
+    cur, bad = tr, 0
+    for attempt in range(6):
+        res = ctx.tlc_trace("Trace_NotifySub", "Trace_NotifySub.cfg", cur, timeout=900)
+        if res["accepted"]:
+            break
+        evs = vlib.read_ndjson(cur)
+        line = res["unmatched"] or 1
+        ev = evs[min(line, len(evs)) - 1]
+        start, run_evs = vlib.run_of_line(evs, line)
+        what = {"ns_sub": "subscribe_notifies " + ("displaced a live subscriber" if ev.get("ok") else "refused although no live subscriber was installed"),
+                "ns_snap_end": "the response loop saw a slot the subscription history does not explain",
+                "ns_snap_begin": "the response loop took the next notify before finishing the previous one (its send neither succeeded nor was reported failed)",
+                "ns_sendfail": "the stale-slot decision after a failed send is not the specification's (a fresh subscription cleared, or a corpse kept)",
+                "res": "a receiver holds notifies the specification does not give it (lost, duplicated, reordered or foreign)",
+                "quiesce": "a pushed notify was never handled"}.get(ev.get("ev"))
+        if what is None:
+            raise vlib.ToolError(f"notify-slot trace rejected at line {line} on {ev}: {res['detail']}")
+        ctx.violation(f"nsub:{ev.get('ev')}:{ev.get('ok', ev.get('cleared', ''))}", f"{what}: {json.dumps(ev)} ({res['detail']})", {"run_events": run_evs, "line_in_run": line - start})
+        bad += 1
+        rest = evs[:start] + evs[start + len(run_evs):]
+        cur = ctx.work / f"nsub-r{attempt}.ndjson"
+        cur.write_text("".join(json.dumps(e) + "\n" for e in rest))
+    ctx.coverage["notify_slot"] = st
+    ctx.coverage["traces_validated_against_impl"] += st["scenarios"] - bad
+    ctx.coverage["evaluations"] += st["events"]
+    if bad == 0 and (st["refused"] == 0 or st["stale_cleared"] == 0 or st["scripted_races_reached"] < 3 or st["stale_not_own"] == 0):
+        raise vlib.ToolError(f"notify-slot scenarios did not exercise refusal / stale clearing: {st}")
+    ctx.assume("notify-slot events are emitted by verif-hooks inside the slot's critical sections; the lock-free channel send, receiver drop and try_recv are silent / inv-res steps placed by TLC")
+
+
 def run(ctx):
     q = not ctx.thorough
     mc(ctx, ["cancel", "quick3"], ["cancel", "quick"])
@@ -13,6 +52,7 @@ def run(ctx):
     ctx.coverage["rule"] = f"scripted scenarios: all {n}! reply orders per client with a rotating junk frame, random 64-caller orders, batches"
     ctx.coverage["exhaustive"] = True
     ctx.coverage["explanation"] = f"every permutation of {n} concurrent calls per client kind; interleavings of callers and reader at register/write/receive/match/deliver granularity are exhausted in the TLC model only"
+    notify_slot(ctx, q)
     evs = vlib.read_ndjson(runs[2][1])
     ctx.sample({"kind": "one scripted scenario against the WebSocket client", "events": evs[:16]})
     ctx.assume("the scripted server learns which caller issued which id from a tag in the request path",
